@@ -210,3 +210,20 @@ pub open spec fn v2_header_wf(h: V2Header) -> bool {
     let s = h.header@;
     v2_accepts(s) && s.len() == v2_total(s) && v2_decoded(h, s)
 }
+
+pub open spec fn v2_family_of_addresses(a: V2Addresses) -> AddressFamily {
+    match a {
+        V2Addresses::Unspecified => AddressFamily::Unspecified,
+        V2Addresses::IPv4(_) => AddressFamily::IPv4,
+        V2Addresses::IPv6(_) => AddressFamily::IPv6,
+        V2Addresses::Unix(_) => AddressFamily::Unix,
+    }
+}
+
+/// end of the address view inside an accepted header: 16 + family size; the whole payload
+/// for the unspecified family (C14)
+pub open spec fn v2_addr_end(s: Seq<u8>) -> int
+    recommends s.len() >= 16
+{
+    if hi_nib(s[13]) == 0x00u8 { s.len() as int } else { 16 + fam_size(hi_nib(s[13])) }
+}
